@@ -87,6 +87,46 @@ func TestVerifC17Issue(t *testing.T) {
 			if viol {
 				o.Mon("C17 issue first-attempts-exceed-limit case="+c.name, map[string]any{"limit": c.lim, "window_ns": int64(c.win), "order_instants_ns": at})
 			}
+			// ---- the package-level settings changed at run time (a limit raised by one): whatever the
+			// library makes of the new numbers, the orders already admitted keep counting — never more
+			// than the LARGER of the two limits inside one window
+			if c.name == "no-test-ca" {
+				before := len(srv.Orders())
+				time.Sleep(3 * c.win) // a quiet spell: the window is empty again
+				startB := time.Now()
+				var wgB sync.WaitGroup
+				for i := 0; i < c.lim; i++ { // fill the window under the old limit
+					wgB.Add(1)
+					go func(i int) {
+						defer wgB.Done()
+						cfg.ObtainCertSync(context.Background(), fmt.Sprintf("b%d.c17.example", i))
+					}(i)
+				}
+				wgB.Wait()
+				RateLimitEvents = c.lim + 1
+				for i := 0; i < c.lim+2; i++ {
+					wgB.Add(1)
+					go func(i int) {
+						defer wgB.Done()
+						cfg.ObtainCertSync(context.Background(), fmt.Sprintf("c%d.c17.example", i))
+					}(i)
+				}
+				wgB.Wait()
+				RateLimitEvents = c.lim
+				var atB []int64
+				for _, ol := range srv.Orders()[before:] {
+					atB = append(atB, int64(ol.At.Sub(startB)))
+				}
+				sort.Slice(atB, func(i, j int) bool { return atB[i] < atB[j] })
+				bound := c.lim + 1
+				for i := 0; i+bound < len(atB); i++ {
+					if atB[i+bound]-atB[i] < int64(c.win) {
+						o.Mon("C17 issue limit-changed-at-run-time-forgets-admissions", map[string]any{"old_limit": c.lim, "new_limit": c.lim + 1, "window_ns": int64(c.win), "order_instants_ns": atB})
+						break
+					}
+				}
+				o.Stat("limit_change_runs", 1)
+			}
 			// ---- many simultaneous FIRST uses of the limiter of one CA and account: whoever comes
 			// first creates it, everybody must end up waiting on that one (look-up and creation are
 			// one critical section). A burst released by a barrier, limiter map emptied each round.
